@@ -5,9 +5,23 @@ P("C13",
   title="Event-driven components wake no later than requested",
   design_ref="DESIGN.md §3 C13",
   technique="Coq proof (invariant of the pendingWakeup guard by induction over arbitrary request/notify/dispatch histories) "
-            "+ exact model/impl correspondence by vm_compute on projected histories of real EventDrivenComponents in a real SerialEngine",
-  level_text="TBD",
-  level_note="TBD",
+            "+ exact model/implementation correspondence by vm_compute on per-component projections of runs of real "
+            "EventDrivenComponents in a real SerialEngine",
+  level_text="Model: one EventDrivenComponent (pendingWakeup with MaxUint64 = nothing pending, its queued timer events, "
+             "ScheduleWakeAt, ScheduleWakeNow, NotifyRecv, NotifyPortFree, Handle resetting the guard before the processor runs, "
+             "engine.Schedule's past-time panic after the guard was overwritten) against an adversarial environment. Theorems for "
+             "every history: c13_guard_invariant (pendingWakeup != MaxUint64 -> a timer event with that time is queued; no queued "
+             "event in the past), c13_no_later (after an accepted request for t, in every continuation the next processor run is at "
+             "a time <= t, and until then an event <= t is queued and time has not passed t), c13_past_request_panics, "
+             "c13_notify_now_or_earlier (after a notification the next run is at exactly the current instant), "
+             "c13_notify_never_panics, c13_runs_monotone; regression lemmas for the mutations 'guard not reset in Handle' and "
+             "'<= -> <', and the MaxUint64 non-dedup witness. Tie: scripted runs (1-3 components, processors issuing requests on "
+             "themselves and each other, primary/secondary environment events, earlier/later/equal/repeated requests, past requests) "
+             "projected per component and replayed step by step; holds_on re-evaluates both clauses on the observed history; c13_model_agreement_implies_property proves check_case -> holds_on.",
+  level_note="Trusted: Coq kernel + vm_compute; the Go harness (engine wrapper, hooks, projection); the hand-written model of "
+             "eventdriven.go. The engine contract is the legality condition of histories (checked by the replay on every real run, "
+             "proved for the engine model under C01). Checkpoint save/load of the guard is out of scope (C06).",
   assumptions=["engine contract (C01): time never decreases, no pending event is skipped, each scheduled event is dispatched once"],
-  trusted=["modelled, not verified: modeling/eventdriven.go"],
+  trusted=["modelled, not verified: modeling/eventdriven.go (ScheduleWakeAt, ScheduleWakeNow, Handle, NotifyRecv, NotifyPortFree)",
+           "not modelled: eventdriven_checkpoint.go, the component mutex"],
   )
